@@ -24,6 +24,11 @@ func fixedCases() []corr.Case {
 			"writerune 1114111", "writerune 1114112", "writerune 2147483647", "bytes",
 			"readrune", "readrune", "readrune", "unreadrune", "unreadrune", "readrune", "unreadbyte", "readrune", "readrune", "readrune", "readrune",
 			"readrune", "readrune", "readrune", "readrune", "readrune", "readrune", "readrune", "readrune", "readrune", "readrune", "readrune", "unreadrune", "bytes"),
+		// every rune with a special role somewhere (BOM, replacement char, noncharacters, separators, surrogate / plane edges)
+		mk("fixed-runes", "new", "writerune 65279", "writerune 65533", "writerune 65534", "writerune 65535", "writerune 1114111", "writerune 1114110", "bytes",
+			"writerune 55295", "writerune 55296", "writerune 56319", "writerune 56320", "writerune 57343", "writerune 57344", "bytes",
+			"writerune 133", "writerune 160", "writerune 173", "writerune 8203", "writerune 8232", "writerune 8233", "writerune 12288", "writerune 9", "writerune 10", "writerune 13", "bytes",
+			"readrune", "readrune", "readrune", "readrune", "readrune", "readrune", "readrune", "unreadrune", "readrune", "readrune", "readrune", "readrune", "readrune", "readrune", "len"),
 		// invalid encodings under ReadRune
 		mk("fixed-bad-utf8", "new", "write c0afe080afeda080f4908080f08080", "readrune", "readrune", "readrune", "unreadrune", "readrune", "readrune", "readrune",
 			"readrune", "readrune", "readrune", "readrune", "readrune", "readrune", "readrune", "readrune", "readrune", "readrune", "readrune"),
@@ -52,6 +57,10 @@ func fixedCases() []corr.Case {
 			"writeto short 5", "writeto err 3", "writeto over", "writeto err 100000", "len", "writeto all", "writeto all", "writeto over"),
 		mk("fixed-io", "new", "readfrom x9:3000 eof+ 0", "len", "cap", "readfrom x1:600 err+ 7 1 0 512", "len", "readfrom 616263 neg+ 0", "readfrom - over+ 3", "bytes", "cap"),
 		mk("fixed-io", "new", "write 6162", "readfrom x5:700 eof 100 0 0 300 0 300", "bytes", "cap", "off", "writeto short 702", "len"),
+		// outside the contract (tex half only): a reader delivering min(600, len(p)) per call sees the capacity policy
+		mk("fixed-space-dependent-reader", "new", "readfrom x0:2000 eof 0 600 600", "len", "cap"),
+		// allocation rule (T-observable, child process with capped address space)
+		mk("fixed-memprobe", "new", "memprobe 1099511627776", "memprobe 4611686018427387904", "writebyte 01", "bytes"),
 		// ReWrite / NewSizedBuffer
 		mk("fixed-rewrite", "news 16", "cap", "len", "write 0000000068656c6c6f", "rewrite 0 00000005", "bytes", "rewrite 7 ffffffffff", "bytes", "rewrite 9 aa", "rewrite 10 aa", "rewrite -1 aa", "bytes"),
 		mk("fixed-rewrite", "new", "write 0102030405", "read 2", "rewrite 1 aabb", "bytes", "unreadbyte", "bytes", "rewrite 0 -", "rewrite 5 -", "rewrite 6 -"),
@@ -139,7 +148,8 @@ func hexOf(d []byte) string {
 }
 
 var interestingRunes = []int64{0, 1, 0x41, 0x7f, 0x80, 0x7ff, 0x800, 0xd7ff, 0xd800, 0xdbff, 0xdfff, 0xe000, 0xfffd, 0xffff, 0x10000, 0x10ffff,
-	0x110000, 0x7fffffff, 0x20ac, 0x1f600, 0xe9}
+	0x110000, 0x7fffffff, 0x20ac, 0x1f600, 0xe9,
+	0xfeff, 0xfffe, 0xfffc, 0xd7fe, 0xdc00, 0xe001, 0x10fffe, 0x10000 + 1, 0x7fe, 0x801, 0x7e, 0x81, 0x85, 0xa0, 0xad, 0x2028, 0x2029, 0x200b, 0x200d, 0x202e, 0x3000, 0x1f, 0x9, 0xa, 0xd}
 var negativeRunes = []int64{-1, -2, -128, -129, -256, -65536, -2147483648, -2147483521}
 
 func (g *gen) runeVal(negOK bool) int64 {
@@ -299,7 +309,7 @@ var wRewrite = []weighted{{"rewrite", 30}, {"write", 20}, {"writebyte", 5}, {"re
 var malformed = []string{"nop", "write", "write 0", "write 0g", "write AB", "writebyte", "writebyte 0102", "writebyte -", "writerune", "writerune 2147483648",
 	"writerune x", "read", "read -1", "read 1 2", "readbyte 1", "next", "next 1 2", "truncate", "grow", "grow 1 2", "readfrom", "readfrom 00", "readfrom 00 eof",
 	"readfrom 00 nope 0", "readfrom 00 eof x", "readfrom 00 eof 0 -1", "readfrom 00 eof++ 0", "readfrom 00 + 0", "writeto", "writeto short", "writeto all 1", "writeto some 1", "rewrite", "rewrite 1",
-	"rewrite x 00", "len 1", "cap 1", "newb", "newb 00", "news", "news x", "new 1", "write x1", "write x1:2:3", "write x1:2000000"}
+	"rewrite x 00", "memprobe", "memprobe x", "memprobe 1 2", "len 1", "cap 1", "newb", "newb 00", "news", "news x", "new 1", "write x1", "write x1:2:3", "write x1:2000000"}
 
 func genCase(r *rng.R, tier string, i int) corr.Case {
 	g := &gen{r: r, sh: &session{}}
